@@ -313,6 +313,8 @@ def getattr(eng, obj, attr):
             return builtins.getattr(obj, attr)
         return ("nativemethod", obj, attr)
     if isinstance(obj, ModelRaise):
+        if attr == "with_traceback":
+            return ("boundnative", obj, attr)
         if attr == "args":
             return obj.eargs
         if attr == "errno":
